@@ -1700,8 +1700,9 @@ class Transaction(object):
             if not transaction_hash:
                 _logger.info("Need at least 1 key to create segwit transaction signature")
                 return False
-            self.verified = inp.verify(transaction_hash)
-            if not self.verified:
+            # Only set verified when all inputs are checked: an exception while checking a later input must not leave
+            # the transaction marked as verified
+            if not inp.verify(transaction_hash):
                 return False
 
         self.verified = True
